@@ -2,23 +2,26 @@
 # validate_seed.sh <worktree> <n> : confirm that $SD/change<n>.diff compiles, keeps the 79
 # baseline tests passing (ui_tests failing as on the baseline), and that demo<n>.rs fails with
 # the change and passes without. Writes <worktree>/$SD/validated<n>.txt
+# env: DEMO_FLAGS (extra cargo flags for the demo, e.g. "--release" or "--features info/docs");
+#      DEMO_LIB=1 puts the demo under the library crate's tests/ (demos needing its optional dependencies) and runs it with -p scale-info
 WT=$1; N=$2; SD=${3:-_seeded}
 cd "$WT" || exit 2
 export CARGO_NET_OFFLINE=true
 OUT=$SD/validated$N.txt
 : > $OUT
-git checkout -q -- . ; rm -f test_suite/tests/seeded_demo_*.rs
-cp $SD/demo$N.rs test_suite/tests/seeded_demo_$N.rs
+git checkout -q -- . ; rm -f test_suite/tests/seeded_demo_*.rs tests/seeded_demo_*.rs tests/seeded4_demo_*.rs
+if [ -n "$DEMO_LIB" ]; then mkdir -p tests; DEMO=tests/seeded_demo_$N.rs; PKG=scale-info; else DEMO=test_suite/tests/seeded_demo_$N.rs; PKG=scale-info-test-suite; fi
+cp $SD/demo$N.rs $DEMO
 # demo on pristine
-cargo test --offline -p scale-info-test-suite --test seeded_demo_$N > $SD/demo${N}_pristine.log 2>&1
+cargo test --offline -p $PKG $DEMO_FLAGS --test seeded_demo_$N > $SD/demo${N}_pristine.log 2>&1
 echo "demo_pristine_rc=$?" >> $OUT
 git apply $SD/change$N.diff || { echo "apply_failed" >> $OUT; exit 1; }
 cargo build --workspace --offline > /dev/null 2>&1; echo "build_ws_rc=$?" >> $OUT
 cargo build --offline --all-features > /dev/null 2>&1; echo "build_all_rc=$?" >> $OUT
 cargo build --offline --no-default-features > /dev/null 2>&1; echo "build_nodefault_rc=$?" >> $OUT
-cargo test --offline -p scale-info-test-suite --test seeded_demo_$N > $SD/demo${N}_changed.log 2>&1
+cargo test --offline -p $PKG $DEMO_FLAGS --test seeded_demo_$N > $SD/demo${N}_changed.log 2>&1
 echo "demo_changed_rc=$?" >> $OUT
-rm -f test_suite/tests/seeded_demo_$N.rs
+rm -f $DEMO
 cargo test --workspace --no-fail-fast --offline > $SD/suite${N}_changed.log 2>&1
 passed=$(grep -E "^test result:" $SD/suite${N}_changed.log | awk '{s+=$4} END{print s}')
 failed=$(grep -E "^test .* FAILED$" $SD/suite${N}_changed.log | sort | tr '\n' ' ')
